@@ -15,7 +15,9 @@ RULE = ("cases: (a) every cap kind (9 file kinds x file/directory wrapper) with 
         "deep-immutable context in both orders, both slots, prefixed variants), each answer compared with a fresh "
         "NodeMaker's; (e) children (known caps of every kind and unknown caps with none/ro./imm./doubled prefixes in "
         "either slot) attached through NodeMaker to SSK, MDMF and deep-immutable directories, serialized by the real "
-        "dirnode pack code and read back by _unpack_contents through the write cap, the read cap and after a rewrite.  "
+        "dirnode pack code and read back by _unpack_contents through the write cap, the read cap and after a rewrite, "
+        "with a NodeMaker whose access.blacklist lists about half of the children (ProhibitedNode wrappers); every node "
+        "class, bare and wrapped, is asked for get_uri/get_write_uri/get_readonly_uri/get_readcap.  "
         "distinct non-trivial "
         "= distinct (cap, operation) or (string, prefix, context) that reach a known kind's parser or a non-opaque node")
 META = {
@@ -475,6 +477,82 @@ def dir_candidates(r):
     return out
 
 
+_BL_COUNT = [0]
+
+
+def nodemaker_with_blacklist(storage_indexes):
+    """A NodeMaker whose access.blacklist lists the given storage indexes: create_from_cap wraps
+    every node with one of them in blacklist.ProhibitedNode."""
+    import os
+    from core import env
+    from allmydata.nodemaker import NodeMaker
+    from allmydata.blacklist import Blacklist
+    from allmydata.util import base32
+    _BL_COUNT[0] += 1
+    fn = os.path.join(env.subdir("c16-blacklist"), "access.blacklist.%d" % _BL_COUNT[0])
+    with open(fn, "wb") as f:
+        f.write(b"# storage indexes this client refuses to access\n")
+        for si in storage_indexes:
+            f.write(base32.b2a(si) + b" prohibited by the C16 driver\n")
+    return NodeMaker(None, None, None, None, None, {"k": 3, "n": 10}, None, None, blacklist=Blacklist(fn))
+
+
+def accessor_oracle(ctx, node, case):
+    """Every node class (ProhibitedNode included) reports, as its read cap, the read-only form
+    of its cap -- never a write cap -- and a write cap exactly when it is writeable."""
+    u = U.uri_mod()
+    cname = type(node).__name__
+    if node.is_unknown():
+        return          # UnknownNode: covered by unknown_nodes() and the directory round trip
+    try:
+        s = node.get_uri()
+        c = u.from_string(s)
+        if isinstance(c, u.UnknownURI):
+            return
+        want_ro = c.get_readonly().to_string()
+        got_ro, got_rw = node.get_readonly_uri(), node.get_write_uri()
+        readcap = node.get_readcap().to_string()
+        flags = (bool(node.is_readonly()), bool(node.is_mutable()))
+    except Exception as e:
+        ctx.oracle_fail("node-accessor-raises:" + cname, "%s accessor raises %s" % (cname, type(e).__name__), case=case)
+        return
+    if got_ro != want_ro or readcap != want_ro:
+        back = u.from_string(got_ro) if got_ro else None
+        leak = back is not None and not isinstance(back, u.UnknownURI) and not back.is_readonly()
+        ctx.oracle_fail("node-readonly-uri-is-not-the-read-cap:" + cname,
+                        "%s.get_readonly_uri() = %s, get_readcap() = %s, but the read-only form of its cap %s is %s%s" % (
+                            cname, U.show(got_ro or b""), U.show(readcap), U.show(s), U.show(want_ro), " (a WRITE cap is reported as read cap)" if leak else ""),
+                        case=case, expected=U.show(want_ro), observed=U.show(got_ro or b""))
+    if got_rw != (None if c.is_readonly() else s):
+        ctx.oracle_fail("node-write-uri-wrong:" + cname, "%s.get_write_uri() = %r for cap %s" % (cname, got_rw, U.show(s)), case=case)
+    if flags != (bool(c.is_readonly()), bool(c.is_mutable())):
+        ctx.oracle_fail("node-flags-differ-from-cap:" + cname, "%s reports (readonly, mutable) = %s, its cap %s" % (cname, flags, (c.is_readonly(), c.is_mutable())), case=case)
+
+
+def node_accessors(ctx):
+    """Each node class NodeMaker builds, bare and wrapped in ProhibitedNode (blacklisted storage index)."""
+    n = ctx.n(2, 12)
+    for i in range(n):
+        r = ctx.rng("acc", i)
+        caps = []
+        for kind in ("CHK", "LIT", "SSK", "SSKRO", "MDMF", "MDMFRO"):
+            for is_dir in (False, True):
+                fields = tuple((x % 2 ** 30) if isinstance(x, int) else x for x in U.gen_fields(r, kind))
+                caps.append(U.make_cap(kind, fields, is_dir))
+        sis = [c.get_storage_index() for c in caps if c.get_storage_index() is not None]
+        for label, nm in (("blacklisted", nodemaker_with_blacklist(sis)), ("plain", nodemaker_with_blacklist([]))):
+            for c in caps:
+                s = c.to_string()
+                for rw, ro in ((s, None), (None, s), (None, c.get_readonly().to_string())):
+                    node = nm.create_from_cap(rw, ro)
+                    case = {"class": type(node).__name__, "wrapped": type(getattr(node, "wrapped_node", node)).__name__, "blacklisted": label == "blacklisted",
+                            "rw_hex": None if rw is None else rw.hex(), "ro_hex": None if ro is None else ro.hex(), "accessor_case": True}
+                    ctx.case((label, rw, ro), kind="node-accessors:%s:%s" % (label, type(getattr(node, "wrapped_node", node)).__name__))
+                    if label == "blacklisted" and c.get_storage_index() is not None and type(node).__name__ != "ProhibitedNode":
+                        ctx.note("blacklisted storage index did not yield a ProhibitedNode for " + type(c).__name__)
+                    accessor_oracle(ctx, node, case)
+
+
 def dir_roundtrip(ctx):
     """Children attached to a directory, the directory serialized by the real
     dirnode pack code and read back by _unpack_contents -- through the write cap and
@@ -490,7 +568,15 @@ def dir_roundtrip(ctx):
     n = ctx.n(6, 45)
     for i in range(n):
         r = ctx.rng("dirrt", i)
-        nm = NodeMaker(None, None, None, None, None, {"k": 3, "n": 10}, None, None)
+        cands = dir_candidates(r)
+        # about half of the children that have a storage index are blacklisted: NodeMaker hands them
+        # out (when attached and when read back) wrapped in ProhibitedNode
+        sis = []
+        for _, rw_, ro_ in cands:
+            c_ = u.from_string(rw_ or ro_)
+            if not isinstance(c_, u.UnknownURI) and c_.get_storage_index() is not None and r.random() < 0.5:
+                sis.append(c_.get_storage_index())
+        nm = nodemaker_with_blacklist(sis)
         which = ("SSK", "MDMF", "CHK")[i % 3]
         di = which == "CHK"
         if di:
@@ -502,7 +588,7 @@ def dir_roundtrip(ctx):
             views = [(which + " directory via write cap", nm.create_from_cap(dcap.to_string()), True),
                      (which + " directory via read cap", nm.create_from_cap(dcap.get_readonly().to_string()), False)]
         children, meta = {}, {}
-        for j, (label, rw, ro) in enumerate(dir_candidates(r)):
+        for j, (label, rw, ro) in enumerate(cands):
             try:
                 node = nm.create_from_cap(rw, ro, deep_immutable=di, name=u"child")
                 node.raise_error()
@@ -515,6 +601,9 @@ def dir_roundtrip(ctx):
             name = u"c%03d" % j
             children[name] = (node, {})
             meta[name] = (label, rw, ro)
+            accessor_oracle(ctx, node, {"class": type(node).__name__, "wrapped": type(getattr(node, "wrapped_node", node)).__name__,
+                                        "blacklisted": type(node).__name__ == "ProhibitedNode", "accessor_case": True,
+                                        "rw_hex": None if rw is None else rw.hex(), "ro_hex": None if ro is None else ro.hex()})
         try:
             packed = pack_children(children, None, deep_immutable=True) if di else views[0][1]._pack_contents(children)
         except Exception as e:
@@ -534,6 +623,7 @@ def dir_roundtrip(ctx):
                 b_rw, b_ro = before.get_write_uri(), before.get_readonly_uri()
                 case = {"directory": which, "view": where, "child": label, "deep_immutable": di, "writeable_view": writeable,
                         "rw_hex": None if rw is None else rw.hex(), "ro_hex": None if ro is None else ro.hex(),
+                        "blacklisted": type(before).__name__ == "ProhibitedNode",
                         "attached_as": [type(before).__name__, None if b_rw is None else U.show(b_rw), None if b_ro is None else U.show(b_ro)]}
                 after = got[name][0] if name in got else None
                 unk_b = isinstance(before, UnknownNode)
@@ -591,6 +681,7 @@ def run(ctx):
     prefixes(ctx)
     unknown_nodes(ctx)
     histories(ctx)
+    node_accessors(ctx)
     dir_roundtrip(ctx)
 
 
@@ -599,10 +690,12 @@ def replay_dir_child(ctx, case):
     from allmydata.nodemaker import NodeMaker
     from allmydata.dirnode import pack_children
     u = U.uri_mod()
-    nm = NodeMaker(None, None, None, None, None, {"k": 3, "n": 10}, None, None)
     di = bool(case["deep_immutable"])
     rw = None if case["rw_hex"] is None else bytes.fromhex(case["rw_hex"])
     ro = None if case["ro_hex"] is None else bytes.fromhex(case["ro_hex"])
+    c0 = u.from_string(rw or ro)
+    si = c0.get_storage_index() if not isinstance(c0, u.UnknownURI) else None
+    nm = nodemaker_with_blacklist([si] if (case.get("blacklisted") and si) else [])
     node = nm.create_from_cap(rw, ro, deep_immutable=di)
     children = {u"child": (node, {})}
     if di:
@@ -619,6 +712,8 @@ def replay_dir_child(ctx, case):
     out = {"attached": [type(node).__name__, node.get_write_uri(), node.get_readonly_uri()],
            "read_back": None if after is None else [type(after).__name__, after.get_write_uri(), after.get_readonly_uri()]}
     b_ro = node.get_readonly_uri()
+    if after is not None and not case["writeable_view"] and after.get_write_uri():
+        ctx.oracle_fail("directory-child-gains-write-cap", "child read through a read-only view has write cap %s" % U.show(after.get_write_uri()), case=case)
     if after is not None and node.is_unknown() and after.is_unknown() and strength(after.get_readonly_uri()) < strength(b_ro):
         ctx.oracle_fail("directory-roundtrip-weakens-allegation", "child went in as %s and came back as %s" % (U.show(b_ro), U.show(after.get_readonly_uri())), case=case)
     out["model"] = ctx.coq_eval(IMPORTS, "dir_store_read %s %s %s" % (made_term(node), T.boolean(di), T.boolean(bool(case["writeable_view"]))))[-1500:]
@@ -639,6 +734,15 @@ def replay(ctx, rec):
                 ctx.oracle_fail("alleged-prefix-upgraded-to-writeable", "still writeable on replay", case=case)
             if (s.startswith(b"imm.") or case["deep_immutable"]) and o[2].is_mutable():
                 ctx.oracle_fail("alleged-immutable-interpreted-as-mutable", "still mutable on replay", case=case)
+    elif case.get("accessor_case"):
+        rw = None if case["rw_hex"] is None else bytes.fromhex(case["rw_hex"])
+        ro = None if case["ro_hex"] is None else bytes.fromhex(case["ro_hex"])
+        c = U.uri_mod().from_string(rw or ro)
+        si = c.get_storage_index() if hasattr(c, "get_storage_index") else None
+        nm = nodemaker_with_blacklist([si] if (case.get("blacklisted") and si) else [])
+        node = nm.create_from_cap(rw, ro)
+        accessor_oracle(ctx, node, case)
+        out = {"node": type(node).__name__, "get_uri": node.get_uri(), "get_write_uri": node.get_write_uri(), "get_readonly_uri": node.get_readonly_uri()}
     elif "directory" in case and "view" in case:
         out = replay_dir_child(ctx, case)
     elif "calls" in case:
